@@ -570,7 +570,7 @@ func doneAt(tr []simrt.TraceEvent, jseq int) map[string]bool {
 
 func init() {
 	Register(&Check{ID: "C01", Level: "fault_enumeration",
-		Rule: "one case = one generated workflow (shell-command and Go-function tasks; output paths plain, in new sub-directories, parent-relative, absolute; extra files) under one tape-chosen schedule, optionally with one or two injected command failures (exit before / after partial / after complete write, signal at a micro-step, omitted output) or with a process whose command is an && list failing at its middle step; other shapes: same base names in different directories, FileSplitter (every visible part must be complete). For that schedule EVERY distinct crash state (the fs after each journalled fs mutation = every instant at which killing the process group leaves a different durable state) is enumerated and checked: a file at a declared final path implies an exit(0) of that task's command earlier in the journal and complete bytes; every other new regular file is an audit/log/extra file or lies below a _scipipe_tmp* directory. evaluations = incarnations; crash_states_enumerated counts the states checked. Round 5: streaming pairs (ordinary output written before or after the stream), consumers that close the stream early so that the producer dies of SIGPIPE. Round 6: a task whose command exits 0 without a declared output has failed; very long command lines; splitter inputs with the same base name, parts predicted from the input alone. distinct = event-log hash; non-trivial = >=2 tasks started and >=1 non-default choice",
+		Rule: "one case = one generated workflow (shell-command and Go-function tasks; output paths plain, in new sub-directories, parent-relative, absolute; extra files) under one tape-chosen schedule, optionally with one or two injected command failures (exit before / after partial / after complete write, signal at a micro-step, omitted output) or with a process whose command is an && list failing at its middle step; other shapes: same base names in different directories, FileSplitter (every visible part must be complete). For that schedule EVERY distinct crash state (the fs after each journalled fs mutation = every instant at which killing the process group leaves a different durable state) is enumerated and checked: a file at a declared final path implies an exit(0) of that task's command earlier in the journal and complete bytes; every other new regular file is an audit/log/extra file or lies below a _scipipe_tmp* directory. evaluations = incarnations; crash_states_enumerated counts the states checked. Round 5: streaming pairs (ordinary output written before or after the stream), consumers that close the stream early so that the producer dies of SIGPIPE. Round 6: a task whose command exits 0 without a declared output has failed; very long command lines; splitter inputs with the same base name, parts predicted from the input alone. Round 7: Go functions through sp.ExecCmd and with SetOut-only ports; outputs named *.log. distinct = event-log hash; non-trivial = >=2 tasks started and >=1 non-default choice",
 		Run: func(c *Case) Verdict {
 			var w *WF
 			switch c.Tape.Choose(simrt.StGen, 8, 0) {
@@ -1244,7 +1244,7 @@ func streamLeftoverCase(c *Case) Verdict {
 
 func init() {
 	Register(&Check{ID: "C03", Level: "fault_enumeration",
-		Rule: "one case = one generated workflow under one tape-chosen schedule; for that schedule EVERY distinct crash state (fs after each journalled mutation) is used as a kill point, and for each the history 'cleanup of _scipipe_tmp*/FIFO entries + re-run' is executed and must converge: exit 0, file set and bytes = reference (= uninterrupted result), outputs final before the re-run keep (inode, mtime), no task with all outputs final is re-executed. For tape-chosen states additionally: re-run WITHOUT cleanup (must refuse with exit != 0 whenever a leftover exists, finalized files still correct) and a nested crash during recovery (kill the re-run at a tape-chosen crash state, cleanup, re-run). evaluations = incarnations; Round 5: Go-function tasks; one case in four starts the crashing run from a completed run whose results were deleted while their audit files stayed. Round 6: a Go-function consumer (FileIP.Open + Size) behind the Concatenator. distinct = event-log hash over the whole history; non-trivial = >=2 tasks and >=1 non-default choice",
+		Rule: "one case = one generated workflow under one tape-chosen schedule; for that schedule EVERY distinct crash state (fs after each journalled mutation) is used as a kill point, and for each the history 'cleanup of _scipipe_tmp*/FIFO entries + re-run' is executed and must converge: exit 0, file set and bytes = reference (= uninterrupted result), outputs final before the re-run keep (inode, mtime), no task with all outputs final is re-executed. For tape-chosen states additionally: re-run WITHOUT cleanup (must refuse with exit != 0 whenever a leftover exists, finalized files still correct) and a nested crash during recovery (kill the re-run at a tape-chosen crash state, cleanup, re-run). evaluations = incarnations; Round 5: Go-function tasks; one case in four starts the crashing run from a completed run whose results were deleted while their audit files stayed. Round 6: a Go-function consumer (FileIP.Open + Size) behind the Concatenator. Round 7: tagging components in the crash histories. distinct = event-log hash over the whole history; non-trivial = >=2 tasks and >=1 non-default choice",
 		Run: func(c *Case) Verdict {
 			var w *WF
 			switch c.Tape.Choose(simrt.StGen, 8, 0) {
